@@ -53,9 +53,12 @@ fn entry_bytes(e: &Value) -> Option<Vec<u8>> {
 }
 
 /// pick a world of valid sources: (files, main program path)
+const NON_ASCII_PROGRAM: &str = "(import (scheme base) (scheme write))\n; комментарий с (скобкой\n(define grüße \"grüße, λ und 中文 (ok)\")\n(display grüße)\n(newline)\n(define (länge l) (if (pair? l) (+ 1 (länge (cdr l))) 0)) ; λ-Kalkül\n(display (länge '(α β γ)))\n(display #\\λ)\n(newline)\n";
+
 fn pick_world(rng: &mut Rng) -> (Vec<(String, Vec<u8>)>, String) {
-    let c = rng.upto(10);
+    let c = rng.upto(11);
     match c {
+        10 => (vec![("main.scm".into(), NON_ASCII_PROGRAM.as_bytes().to_vec())], "non-ascii-program".into()),
         0 | 1 | 2 => {
             let p = *rng.pick(REPO_PROGRAMS);
             let bytes = repo_file(p).unwrap_or_else(|| b"(import (scheme base))\n(+ 1 2)\n".to_vec());
@@ -90,7 +93,7 @@ fn pick_world(rng: &mut Rng) -> (Vec<(String, Vec<u8>)>, String) {
             }
             (vec![("main.scm".into(), text.into_bytes())], "engine-a-history".into())
         }
-        _ => {
+        8 | 9 => {
             // a library world of engine B with its program
             let sub = crate::engine_b::generate_c13(rng.next_u64(), true);
             let mut files = vec![];
@@ -110,6 +113,7 @@ fn pick_world(rng: &mut Rng) -> (Vec<(String, Vec<u8>)>, String) {
             files.insert(0, ("main.scm".into(), text.into_bytes()));
             (files, "engine-b-world".into())
         }
+        _ => unreachable!(),
     }
 }
 
@@ -126,6 +130,7 @@ const FAULT_KINDS: &[&str] = &[
     "dangling-symlink",
     "drop-byte",
     "insert-byte",
+    "insert-multibyte-char",
 ];
 
 fn damage(rng: &mut Rng, bytes: &mut Vec<u8>, kind: &str, other: &[u8]) {
@@ -181,6 +186,13 @@ fn damage(rng: &mut Rng, bytes: &mut Vec<u8>, kind: &str, other: &[u8]) {
         "drop-byte" => {
             bytes.remove(rng.upto(n));
         }
+        "insert-multibyte-char" => {
+            let at = rng.upto(n + 1);
+            let ch = *rng.pick(&["λ", "ü", "中", "\u{feff}", "é", "\u{1F600}"]);
+            let tail = bytes.split_off(at);
+            bytes.extend_from_slice(ch.as_bytes());
+            bytes.extend_from_slice(&tail);
+        }
         "insert-byte" => {
             let at = rng.upto(n + 1);
             let b = *rng.pick(b"()#\\'\".;|0123456789/e+- \n\xff\x00");
@@ -227,13 +239,28 @@ fn generate_d(seed: u64, _quick: bool) -> Value {
             entries.push(file_entry(p, b));
         }
     }
+    let mode = {
+            let main_untouched = faults.iter().all(|f| f["file"].as_str() != Some("main.scm"));
+            let c = rng.upto(8);
+            if c < 4 {
+                "eval_file"
+            } else if c < 5 {
+                "eval_text"
+            } else if c < 7 {
+                "cli"
+            } else if main_untouched && origin == "engine-b-world" {
+                "eval_forms"
+            } else {
+                "eval_file"
+            }
+    };
     json!({
         "seed": seed,
         "hash_seed": hash_seed,
         "origin": origin,
         "faults": faults,
         "files": entries,
-        "mode": if rng.chance(3, 4) { "eval_file" } else { "eval_text" },
+        "mode": mode,
     })
 }
 
@@ -273,6 +300,60 @@ fn execute_d(case: Value) -> RunResult {
             main_path = p;
         }
     }
+    if mode == "cli" {
+        // the same damaged world given to the real binary: the process must not panic
+        let r = crate::procio::run_cli(
+            &root,
+            case["hash_seed"].as_u64().unwrap_or(1),
+            &["main.scm".to_string()],
+            std::time::Duration::from_secs(2),
+        );
+        crate::sandbox::remove_dir(&root);
+        let mut all = vec![];
+        for e in &files {
+            all.extend(entry_bytes(e).unwrap_or_default());
+            all.extend(e["special"].as_str().unwrap_or("").as_bytes());
+        }
+        res.sched_hash = fnv64(&all) ^ 0x5151;
+        for f in case["faults"].as_array().cloned().unwrap_or_default() {
+            res.count(&format!("fault_injected.{}", f["kind"].as_str().unwrap_or("")));
+        }
+        res.count("mode.cli");
+        match r {
+            Err(e) => res.invalid = Some(format!("cannot run the ruschm binary: {}", e)),
+            Ok(c) => {
+                let stderr = crate::procio::strip_ansi(&c.stderr);
+                let class = if c.timed_out {
+                    "timeout"
+                } else if c.signal.is_some() {
+                    "signal"
+                } else if c.code == Some(101) && stderr.contains("panicked at") {
+                    "PANIC"
+                } else if c.code == Some(0) {
+                    "ok"
+                } else {
+                    "diagnostic"
+                };
+                res.log.push(format!("binary on the damaged world => {} (status {:?}, signal {:?})", class, c.code, c.signal));
+                res.count(&format!("outcome.cli-{}", class));
+                res.nontrivial = class == "diagnostic";
+                match class {
+                    "PANIC" => {
+                        let at = stderr.split("panicked at ").nth(1).and_then(|x| x.split(':').next()).unwrap_or("?").to_string();
+                        let msg = stderr.split("panicked at ").nth(1).and_then(|x| x.lines().nth(1)).unwrap_or("").to_string();
+                        res.violation = Some(Violation {
+                            signature: format!("C07/binary-panics/{}|{}", at, crate::hashseed::message_class(&msg)),
+                            detail: json!({"status": c.code, "stderr": stderr.lines().skip(1).take(2).collect::<Vec<_>>(), "origin": case["origin"], "faults": case["faults"]}),
+                        });
+                    }
+                    // non-termination, stack and memory exhaustion are outside the claim
+                    "timeout" | "signal" => res.discarded = Some(format!("binary ended by {}", class)),
+                    _ => {}
+                }
+            }
+        }
+        return res;
+    }
     ruschm::verif_hooks::set_budget(200_000, 1_500);
     ruschm::verif_hooks::set_loader_depth_limit(64);
     ruschm::verif_hooks::set_expansion_depth_limit(400);
@@ -285,12 +366,33 @@ fn execute_d(case: Value) -> RunResult {
             return res;
         }
     };
+    // eval_forms: the (undamaged) program given form by form, so that it is known whether a
+    // failure struck while the program was still importing
+    let mut failed_while_importing = false;
+    let mode2 = mode.clone();
     let outcome = {
         let it = &mut it;
         let mp = main_path.clone();
         let parent: Option<PathBuf> = main_path.parent().map(|p| p.to_path_buf());
+        let fwi = &mut failed_while_importing;
         guarded(move || {
-            if mode == "eval_file" {
+            if mode == "eval_forms" {
+                it.program_directory = parent;
+                let text = String::from_utf8_lossy(&main_bytes.unwrap_or_default()).to_string();
+                let mut last = Ok(None);
+                let mut importing = true;
+                for line in text.lines() {
+                    if !line.trim_start().starts_with("(import") {
+                        importing = false;
+                    }
+                    last = it.eval(line.chars());
+                    if last.is_err() {
+                        *fwi = importing;
+                        break;
+                    }
+                }
+                last
+            } else if mode == "eval_file" {
                 it.eval_file(mp)
             } else {
                 // the same code without io.rs: lossily decoded text
@@ -326,12 +428,18 @@ fn execute_d(case: Value) -> RunResult {
         // the same interpreter still evaluates further input
         ruschm::verif_hooks::set_budget(200_000, 1_500);
         let probe = format!("sim-probe-{}", case["seed"].as_u64().unwrap_or(0) % 100_000);
-        let checks: Vec<(String, String)> = vec![
+        let mut checks: Vec<(String, String)> = vec![];
+        if mode2 == "eval_forms" && failed_while_importing {
+            // the program was still importing when a library failed: importing goes on
+            checks.push(("(import (only (scheme base) car))".to_string(), String::new()));
+            res.count("probe.import_after_failed_import");
+        }
+        checks.extend(vec![
             ("'sane".to_string(), "sane".to_string()),
             (format!("(define {} 'v)", probe), String::new()),
             (probe.clone(), "v".to_string()),
             ("((lambda (x) (if x 'yes 'no)) #t)".to_string(), "yes".to_string()),
-        ];
+        ]);
         for (form, want) in checks {
             let r = {
                 let it = &mut it;
